@@ -2,5 +2,11 @@ from rsocket.helpers import DefaultPublisherSubscription
 
 
 class EmptyStream(DefaultPublisherSubscription):
+    _completed = False
+
     def request(self, n: int):
+        if self._completed:
+            return  # every further request(n) would signal completion again
+
+        self._completed = True
         self._subscriber.on_complete()
